@@ -27,7 +27,7 @@ def invented_names(d, mid):
             for k in range(info["n"]):
                 out.append(f"{iname}_{k}")
         if info["kind"] == "pair":
-            out += [f"{iname}_p", f"{iname}_n"]
+            out += [f"{iname}_{mem}" for mem in d.bundles[info.get("bid", refmodel.DIFF)]["sigs"]]
     for bname, (bid, _p, _f) in m.buns.items():
         for path, _w in d.bundle_leaves(bid):
             out.append(bname + "_" + "_".join(path))
